@@ -308,11 +308,17 @@ class Gen:
         # force elements with exact laws; the second list is the same elements with changed parameters / enable flags
         TRANSL = {"slider": [1], "cylinder": [2], "planar": [2, 3], "translation": [1, 2, 3], "bushing": [4, 5, 6], "bendstretch": [2], "euler5": [4, 5], "freee": [4, 5, 6]}
         fel = []
+        lb = [i for i, d in enumerate(desc, 1) if d["type"] == "bushing" and not d["rev"] and not d.get("fb")]
+        if lb:        # a LinearBushing wherever it has an exact law (own random stream: the other draws are as before)
+            r2 = random.Random("lbush" + json.dumps(desc))
+            if r2.random() < 0.7:
+                fel.append({"type": "lbush", "on": int(r2.random() < 0.9), "b": r2.choice(lb),
+                            "k6": [r2.randint(0, 4) for _ in range(6)], "c6": [r2.randint(0, 3) for _ in range(6)]})
         if self.r.random() < 0.6:
             GV = [[0, -3, 0], [0, 0, -2], [2, -1, 1], [-1, 0, 3]]
             mobile = [i for i, d in enumerate(desc, 1) if NU[d["type"]] > 0]
             for _ in range(self.r.randint(1, 4)):
-                t = self.r.choice(["gravity", "gravity", "ugravity", "cforce", "ctorque", "mcf", "mls", "mld", "gdamper", "tpls", "tpls", "tpld", "tpcf", "cable", "cable"])
+                t = self.r.choice(["gravity", "gravity", "ugravity", "cforce", "ctorque", "mcf", "mls", "mld", "gdamper", "tpls", "tpls", "tpld", "tpcf", "cable", "cable", "lbush", "lbush"])
                 e = {"type": t, "on": int(self.r.random() < 0.85)}
                 if t in ("gravity", "ugravity"):
                     e["g"] = self.r.choice(GV); e["ex"] = [int(self.r.random() < 0.2) for _ in desc]
@@ -320,6 +326,12 @@ class Gen:
                     e["b"] = self.r.randint(1, nb); e["st"] = vec(); e["f"] = vec()
                 elif t == "gdamper":
                     e["c"] = self.r.randint(1, 3)
+                elif t == "lbush":      # a LinearBushing across a forward, built-in Bushing mobilizer (same frames, same coordinates)
+                    cand = [i for i, d in enumerate(desc, 1) if d["type"] == "bushing" and not d["rev"] and not d.get("fb")]
+                    if not cand or any(x["type"] == "lbush" for x in fel):
+                        continue
+                    e["b"] = self.r.choice(cand)
+                    e["k6"] = [self.r.randint(0, 4) for _ in range(6)]; e["c6"] = [self.r.randint(0, 3) for _ in range(6)]
                 elif t == "cable":      # a cable spring through 2-5 points on bodies (Ground allowed); some via points disabled
                     if any(x["type"] == "cable" for x in fel):
                         continue
@@ -361,6 +373,12 @@ class Gen:
                 e2["c"] = self.r.randint(1, 5)
                 if e["type"] == "mls":
                     e2["q0"] = self.r.randint(-2, 2)
+            if e["type"] == "lbush":
+                r2 = random.Random("lbush2" + json.dumps(desc))
+                if r2.random() < 0.5:
+                    e2["k6"] = [r2.randint(0, 4) for _ in range(6)]
+                if r2.random() < 0.5:
+                    e2["c6"] = [r2.randint(0, 3) for _ in range(6)]
             fel2.append(e2)
         return {"desc": desc, "q": qs, "u": us, "dyn": int(dyn), "ud": ud, "F": F, "cons": cons, "felems": fel, "felems2": fel2, "q2": q2s, "u2": u2s, "tasks": tasks, "euler": euler,
                 "locked": [int(self.r.random() < 0.3) for _ in desc]}
@@ -576,13 +594,52 @@ def compare(cfg, want, got):
         chk("C04", "station-jacobian-bias", [t["a"] for t in w["taskA0"]], [t["as"] for t in got["taskA0"]])
     # ---- force elements (C38: documented laws and parameter changes taking effect; C12: power against potential energy)
     if cfg["felems"] and "forces" in got:
-        for tag, what in (("forces", "force-law"), ("forces2", "force-law-after-parameter-change")):
+        for tag, what in (("forces", "force-law"), ("forces2", "force-law-after-parameter-change"), ("forces3", "force-law-after-a-u-only-change")):
             kinds = "+".join(sorted(set(e["type"] for e in cfg["felems"])))
             FE = cfg["felems"] if tag == "forces" else cfg["felems2"]
+            uu_ = cfg["u2"] if tag == "forces3" else cfg["u"]
             # interaction elements: finish the spec's exact ingredients with the square root, add them to the spec's totals
             nb_ = len(cfg["desc"])
             tpgot = {t["k"]: t for t in got[tag]["tp"]}
             for k, e in enumerate(FE):
+                if e["type"] == "lbush" and e["on"] and ("done", tag, k) not in w:
+                    # law in the bushing's own coordinates (= the mobilizer's): generalized force -(k q + c qdot), PE = sum k q^2 / 2
+                    w[("done", tag, k)] = 1
+                    g = tpgot.get(k)
+                    if g is None:
+                        res.append(("C38", "interaction-element-missing", json.dumps(e)))
+                        continue
+                    b = e["b"]
+                    qv = [(x["k"] * math.pi / 2 + x["m"] * math.atan2(4, 3)) if i < 3 else float(x["k"]) for i, x in enumerate(cfg["q"][b - 1])]
+                    # the bushing measures its angles from the rotation: they come back in (-pi, pi], middle one in [-pi/2, pi/2]
+                    if abs(math.cos(qv[1])) > 1e-9 and math.cos(qv[1]) > 0:
+                        qv = [math.atan2(math.sin(a), math.cos(a)) for a in qv[:3]] + qv[3:]
+                        uv = [float(x) for x in uu_[b - 1]]
+                        off = sum(NU[d["type"]] for d in cfg["desc"][:b - 1])
+                        expg = [0.0] * nu
+                        for i in range(6):
+                            expg[off + i] = -(e["k6"][i] * qv[i] + e["c6"][i] * uv[i])
+                        pe = 0.5 * sum(e["k6"][i] * qv[i] ** 2 for i in range(6))
+                        chk("C38", what + "/linear-bushing-law", expg, g["gen"])
+                        chk("C38", what + "/linear-bushing-potential-energy", pe, g["pe"])
+                        fs = max([1.0] + [abs(x) for x in expg])
+                        small("C13", "total-force-of-an-interaction-is-zero/lbush", max(abs(x) for x in g["ftot"]), fs * 10)
+                        small("C13", "total-moment-of-an-interaction-is-zero/lbush", max(abs(x) for x in g["mtot"]), fs * 100)
+                        pw = sum(a * b_ for a, b_ in zip(expg[off:off + 6], uv))
+                        chk("C12", "power-of-the-linear-bushing", pw, got[tag]["power"][k])
+                        if all(cc == 0 for cc in e["c6"]):       # no damping: power is -dPE/dt = -sum k q qdot, nothing dissipated
+                            chk("C12", "undamped-bushing-power-is-minus-dPE", -sum(e["k6"][i] * qv[i] * uv[i] for i in range(6)), got[tag]["power"][k])
+                        elif pw + sum(e["k6"][i] * qv[i] * uv[i] for i in range(6)) > 1e-9:
+                            res.append(("C12", "bushing-dissipation-positive", "dissipation term %g > 0" % (pw + sum(e["k6"][i] * qv[i] * uv[i] for i in range(6)))))
+                        # its body forces are part of the totals the spec left out
+                        for bb in range(1, nb_ + 1):
+                            w[tag]["body"][bb - 1]["t"] = [x + y for x, y in zip(w[tag]["body"][bb - 1]["t"], g["W"][bb]["t"])]
+                            w[tag]["body"][bb - 1]["f"] = [x + y for x, y in zip(w[tag]["body"][bb - 1]["f"], g["W"][bb]["f"])]
+                        w[tag]["pe2"] += 2 * pe
+                        w[tag]["power"][k] = pw
+                    else:
+                        w[tag]["skip_totals"] = True
+                    continue
                 if e["type"] not in ("tpls", "tpld", "tpcf", "cable") or not e["on"] or ("done", tag, k) in w:
                     continue
                 w[("done", tag, k)] = 1
@@ -642,10 +699,12 @@ def compare(cfg, want, got):
                     w[tag]["body"][b - 1]["f"] = [x + y for x, y in zip(w[tag]["body"][b - 1]["f"], exp[b][1])]
                 w[tag]["pe2"] += 2 * pe
                 w[tag]["power"][k] = pwr
-            chk("C38", what + "/body-forces/" + kinds, [[b["t"], b["f"]] for b in w[tag]["body"]], [[b["t"], b["f"]] for b in got[tag]["body"]])
-            chk("C38", what + "/mobility-forces/" + kinds, w[tag]["mob"], got[tag]["mob"])
-            chk("C38", what + "/potential-energy/" + kinds, w[tag]["pe2"], got[tag]["pe2"])
-            chk("C12", "power-of-each-element/" + kinds, w[tag]["power"], got[tag]["power"])
+            if not w[tag].get("skip_totals"):
+                chk("C38", what + "/body-forces/" + kinds, [[b["t"], b["f"]] for b in w[tag]["body"]], [[b["t"], b["f"]] for b in got[tag]["body"]])
+                chk("C38", what + "/mobility-forces/" + kinds, w[tag]["mob"], got[tag]["mob"])
+                chk("C38", what + "/potential-energy/" + kinds, w[tag]["pe2"], got[tag]["pe2"])
+                chk("C12", "power-of-each-element/" + kinds, w[tag]["power"], got[tag]["power"])
+
     # ---- constraints (C07: error hierarchy and one G; C08: constrained forward dynamics)
     on = [k for k, cc in enumerate(cfg["cons"]) if cc["on"]]
     if on and "cons" in got:
@@ -830,8 +889,8 @@ def run(pid, tier, rep, replay=None):
     cov["dynamics_configurations"] = sum(1 for i in idx if cfgs[i]["dyn"])
     for i in idx[:1] + idx[-1:]:
         cov["samples"].append({"config": cfgs[i], "expected": {k: conv(want[i][k]) for k in ("X", "M", "ke2")}})
-    cov["uncovered"] = ["configurations off the lattice (general angles), mobilizer types Screw, SphericalCoords, Ellipsoid, LineOrientation, FreeLine, CantileverFreeBeam, Custom/FunctionBased",
-                        "Euler-angle modelling option for Ball / Free", "trees of more than 5 bodies"]
+    cov["uncovered"] = ["configurations off the lattice (general angles)", "mobilizer types Screw, SphericalCoords, CantileverFreeBeam, user-written Custom mobilizers",
+                        "trees of more than 5 bodies", "contact, Hunt-Crossley / elastic-foundation forces, Thermostat, DiscreteForces"]
     cov["exhaustive"] = False
     return cov
 
